@@ -134,12 +134,24 @@ impl Check for C12 {
             return;
         };
         let plan = AliasPlan::random(&mut rng, &ledger);
-        let declared = plan.declare(&ledger);
-        let base = declared.render();
         let seed = rng.next_u64();
         let pct = *rng.pick(&[20u64, 50, 80, 100]);
         let mut namer = RandomNamer::new(&plan, seed, pct);
-        let variant = declared.render_named(&mut namer);
+        // a third of the cases declare the aliases only after some transactions have already used
+        // the canonical names (all orders of declaration versus first use)
+        let ntx = ledger.txns().count();
+        let late = rng.chance(1, 3) && ntx > 1;
+        let cut = if late { 1 + rng.usize(ntx - 1) } else { 0 };
+        let (base, variant) = if late {
+            rec.count("declarations:after-first-use");
+            let b = crate::gen::alias::render_late_declarations(&ledger, &plan, cut, &mut crate::gen::ledger::Identity);
+            let v = crate::gen::alias::render_late_declarations(&ledger, &plan, cut, &mut namer);
+            (crate::gen::ledger::Rendered { text: b, ..Default::default() }, crate::gen::ledger::Rendered { text: v, ..Default::default() })
+        } else {
+            rec.count("declarations:at-top");
+            let declared = plan.declare(&ledger);
+            (declared.render(), declared.render_named(&mut namer))
+        };
         let subs = namer.substitutions;
         if subs == 0 {
             rec.skip();
@@ -212,7 +224,7 @@ impl Check for C12 {
     }
     fn rule(&self) -> String {
         "4 of 5 cases (transparency): an accepted generated ledger of 2-14 transactions (costs, lots, assertions, assignments, inferred amounts, expressions) \
-         preceded by `account` / `commodity` declarations giving 1-3 aliases (ASCII, with ':', Unicode) to a random 3/4 of the accounts and commodities it uses; \
+         with `account` / `commodity` declarations (at the top, or - one case in three - after some transactions have already used the canonical names) giving 1-3 aliases (ASCII, with ':', Unicode) to a random 3/4 of the accounts and commodities it uses; \
          the variant writes 20/50/80/100% of the later occurrences (posting accounts; commodities in amounts, expressions, costs, lot prices, assertions) through a \
          random alias. Oracle (metamorphic): both spellings are accepted or both rejected, stored postings and balance report are identical, no alias string \
          appears in them; a sample compares `okane balance` / `okane register` stdout byte for byte. 1 of 5 cases (conflicts): 8 conflict shapes x account/commodity \
